@@ -15,7 +15,13 @@ EVIDENCE_DIR = os.environ.get('VERIF_EVIDENCE_DIR') or os.path.join(VERIF, 'evid
 
 
 class AnalysisError(Exception):
-    """An anchor vanished / a shape is not recognisable: no verdict possible."""
+    """An anchor vanished / a shape is not recognisable: the structural argument of a rule cannot be made on this tree.
+    check.py reports it as a violation of rule E0.argument-lost (the obligation is not discharged): exit 1."""
+
+
+class ToolError(AnalysisError):
+    """The analysis itself could not run (clang failed, a source file does not parse, no checker, the self-test failed):
+    ANALYSIS-ERROR, exit 2 - nothing is said about the property."""
 
 
 class Obligation(object):
@@ -122,7 +128,12 @@ def finish(ledger, tier, seed, t0, rules_run, explanation, trusted_base, not_dec
     deficits = ['rule %s matched %d instance(s), floor confirmed by reading is %d' % (r, a, b)
                 for r, (a, b) in sorted(ledger.floors.items()) if a < b]
     if deficits and not new:
-        raise AnalysisError('; '.join(deficits) + ' (an anchored construct vanished or is no longer recognisable)')
+        # fewer instances than were confirmed by reading: an anchored construct vanished or is no longer recognisable - the
+        # obligations that used to be discharged on it are not discharged now
+        o = Obligation('E0.argument-lost', 'floor|' + '; '.join(sorted(r for r, (a, b) in ledger.floors.items() if a < b)), pid, 'bad',
+                       '', '; '.join(deficits) + ' (an anchored construct vanished or is no longer recognisable)')
+        ledger.obligations.append(o)
+        new.append(o)
     for d in deficits:
         print('  note: ' + d)
     replay_dir = os.path.join(EVIDENCE_DIR, 'replay')
